@@ -9,6 +9,7 @@ import (
 	"strings"
 	"time"
 
+	"github.com/echovault/sugardb/internal"
 	"github.com/echovault/sugardb/internal/config"
 	"github.com/echovault/sugardb/internal/constants"
 	"github.com/echovault/sugardb/sugardb"
@@ -203,5 +204,48 @@ func (in *Inst) Transition(seq string, conn *net.Conn, cmd []string) (string, Re
 		payload = ""
 	}
 	fmt.Fprintf(&sb, " R %s %s S %s E %s", r.Kind, X(payload), pre, post)
+	sb.WriteString(declaredFootprint(cmd))
 	return sb.String(), r, nil
+}
+
+var keyFuncs map[string]internal.KeyExtractionFunc
+
+// declaredFootprint renders what the command's key function declares to the authorization gate for this vector:
+// " KF ok r <n> <keys> w <n> <keys>", " KF err" when it refuses the vector, "" for commands without one
+// (sub-command tables are not looked at).
+func declaredFootprint(cmd []string) (out string) {
+	if keyFuncs == nil {
+		keyFuncs = map[string]internal.KeyExtractionFunc{}
+		for _, c := range AllCommands() {
+			if c.KeyExtractionFunc != nil && len(c.SubCommands) == 0 {
+				keyFuncs[strings.ToLower(c.Command)] = c.KeyExtractionFunc
+			}
+		}
+	}
+	if len(cmd) == 0 {
+		return ""
+	}
+	f, ok := keyFuncs[strings.ToLower(cmd[0])]
+	if !ok {
+		return ""
+	}
+	defer func() {
+		if recover() != nil {
+			out = " KF err"
+		}
+	}()
+	res, err := f(append([]string{}, cmd...))
+	if err != nil {
+		return " KF err"
+	}
+	var sb strings.Builder
+	fmt.Fprintf(&sb, " KF ok r %d", len(res.ReadKeys))
+	for _, k := range res.ReadKeys {
+		sb.WriteString(" " + X(k))
+	}
+	fmt.Fprintf(&sb, " w %d", len(res.WriteKeys))
+	for _, k := range res.WriteKeys {
+		sb.WriteString(" " + X(k))
+	}
+	return sb.String()
 }
